@@ -17,12 +17,12 @@ namespace GojaModel.C11
 
 /-- proxy.go:913 with the kind-mismatch branch repaired (fixes/C11-compat-kind-mismatch.diff) IS
 §10.1.6.2 IsCompatiblePropertyDescriptor, for every extensibility, descriptor and existing property. -/
-theorem isCompatibleFixed_eq_spec (ext : Bool) (d : Desc) (cur : Option VProp)
+theorem isCompatible_eq_spec (ext : Bool) (d : Desc) (cur : Option VProp)
     (hd : d.Valid) (hc : ∀ p, cur = some p → p.WF) :
-    isCompatibleFixed ext d cur = specIsCompatible ext d.toPD (cur.map VProp.toCur) := by
+    isCompatible ext d cur = specIsCompatible ext d.toPD (cur.map VProp.toCur) := by
   cases cur with
-  | none => simp [isCompatibleFixed, specIsCompatible]
-  | some p => simpa using isCompatibleFixed_some ext d p hd (hc p rfl)
+  | none => simp [isCompatible, specIsCompatible]
+  | some p => simpa using isCompatible_some ext d p hd (hc p rfl)
 
 /-- The code as it is.  PARTIAL: restricted to descriptors that have a `configurable` field or whose kind
 (data / accessor) agrees with the existing property.  What is missing: a kind-changing descriptor without
@@ -32,7 +32,7 @@ theorem isCompatible_eq_spec_partial (ext : Bool) (d : Desc) (cur : Option VProp
     (h : d.configurable ≠ .notSet ∨ ∀ p, cur = some p → (d.isGeneric = true ∨ d.isData = !p.accessor)) :
     isCompatible ext d cur = specIsCompatible ext d.toPD (cur.map VProp.toCur) := by
   rw [isCompatible_eq_fixed_of ext d cur h]
-  exact isCompatibleFixed_eq_spec ext d cur hd hc
+  exact isCompatible_eq_spec ext d cur hd hc
 
 /-- every completed descriptor (what [[GetOwnProperty]] checks) is judged exactly as the spec demands, by
 the code as it is -/
@@ -92,7 +92,7 @@ theorem propToValueProp_wf {prop : TProp} {td : VProp} (hp : prop.WF) (h : propT
 /-- §10.5.6 [[DefineOwnProperty]] (trap result, pre-check and post-check) with the repaired compatibility
 function -/
 theorem define_eq_spec (prop : TProp) (ext : Bool) (d : Desc) (b thr : Bool) (hd : d.Valid) (hp : prop.WF) :
-    mechDefine isCompatibleFixed prop ext d b thr = specDefine prop.toCur ext d.toPD b thr := by
+    mechDefine isCompatible prop ext d b thr = specDefine prop.toCur ext d.toPD b thr := by
   simp only [mechDefine, specDefine, definePostCheckWith, specDefineCheck, TProp.toCur]
   cases b
   · simp
@@ -100,7 +100,7 @@ theorem define_eq_spec (prop : TProp) (ext : Bool) (d : Desc) (b thr : Bool) (hd
     | none => cases hc : d.configurable <;> simp [Desc.toPD, Flag.toOpt, hc]
     | some td =>
       have hw := propToValueProp_wf hp h
-      simp only [Option.map_some, isCompatibleFixed_some ext d td hd hw]
+      simp only [Option.map_some, isCompatible_some ext d td hd hw]
       rcases VProp.wf_shape td hw with ⟨v, hs⟩ | hs <;> rw [hs] <;>
         cases hc : d.configurable <;> cases hw' : d.writable <;> cases td.configurable <;> cases td.writable <;>
         simp [Desc.toPD, Flag.toOpt, hc, hw', VProp.toCur, Cur.configurable] <;>
@@ -231,7 +231,7 @@ theorem preventExtensions_eq_spec (ext b thr : Bool) :
 method leaves a state against which its own result passes the §10.5 check — the essential invariants of
 §6.1.7.3.  `proxyLayer compat tvp logf T` (Model.lean): a Proxy over `T` whose handler forwards every trap
 to Reflect (= the internal method of `T`), built from the mechanism checks of proxy.go.  The theorems take the
-repaired variants of the two functions that have a known finding (`isCompatibleFixed`, `toValuePropFixed`);
+repaired variants of the two functions that have a known finding (`isCompatible`, `toValueProp`);
 for the code as it is see `gopd_accessor_witness` and `define_kindMismatch_witness`.  Trap logging is switched
 off (`logf = fun _ s => s`): the log is instrumentation, compared with the implementation by the lock-step
 correspondence, not part of what the property calls observable. -/
@@ -246,7 +246,7 @@ theorem mechDefine_ok_post {compat : CompatFn} {prop : TProp} {ext : Bool} {d : 
 section
 variable {σ : Type} {q : Queries σ} {T : Ops σ}
 
-local notation "L" => proxyLayer isCompatibleFixed toValuePropFixed (fun (_ : Trap) (s : σ) => s)
+local notation "L" => proxyLayer isCompatible toValueProp (fun (_ : Trap) (s : σ) => s)
 
 theorem layer_getProto (h : Lawful q T) : (L T).getProto = T.getProto := by
   funext s
@@ -306,7 +306,7 @@ theorem layer_define (h : Lawful q T) : (L T).define = T.define := by
       · simp
       · simp only [bindR_ok, h.getOwn_eq, h.isExt_eq]
         have hspec := h.define_inv k d s s' hr
-        have hm : mechDefine isCompatibleFixed (optCurToTProp (q.own k s')) (q.ext s') d.toDesc true false = .ok true := by
+        have hm : mechDefine isCompatible (optCurToTProp (q.own k s')) (q.ext s') d.toDesc true false = .ok true := by
           rw [define_eq_spec _ _ _ _ _ (PD.toDesc_valid d hwf) (optCur_wf _), optCur_toCur, PD.toDesc_toPD]
           simp [specDefine, hspec]
         simp [mechDefine_ok_post hm]
@@ -407,7 +407,7 @@ theorem forwarding_transparent (h : Lawful q T) : L T = T :=
 
 /-- ... lifted to any number of nested layers (induction on the number of layers) -/
 theorem forwarding_transparent_layers (h : Lawful q T) (n : Nat) :
-    stack isCompatibleFixed toValuePropFixed (fun _ _ s => s) T n = T := by
+    stack isCompatible toValueProp (fun _ _ s => s) T n = T := by
   induction n with
   | zero => rfl
   | succ n ih => simp only [stack, ih]; exact forwarding_transparent h
@@ -415,7 +415,7 @@ theorem forwarding_transparent_layers (h : Lawful q T) (n : Nat) :
 /-- ... and to whole operation histories: the observations and the final state of any history applied to
 `n` forwarding layers are those of the history applied to the target -/
 theorem forwarding_transparent_histories (h : Lawful q T) (n : Nat) (ops : List Op) (s : σ) :
-    (stack isCompatibleFixed toValuePropFixed (fun _ _ s => s) T n).runAll ops s = T.runAll ops s := by
+    (stack isCompatible toValueProp (fun _ _ s => s) T n).runAll ops s = T.runAll ops s := by
   rw [forwarding_transparent_layers h n]
 
 /-- a proxy layer over a lawful object is lawful again (with the same queries): the invariants are preserved,
@@ -482,12 +482,12 @@ extensibility and every trap result, the mechanism's outcome — TypeError, unde
 the spec's -/
 theorem gopd_eq_spec (prop : TProp) (ext : Bool) (trap : TrapDesc)
     (ht : ∀ d, trap = .obj d → d.Valid) (hp : prop.WF) :
-    (match mechGopd isCompatibleFixed toValuePropFixed prop ext trap with
+    (match mechGopd isCompatible toValueProp prop ext trap with
       | .ok r => Out.ok r.toCur
       | .typeError => .typeError) = specGopd prop.toCur ext trap.toSpec := by
   cases trap with
-  | undef => exact gopd_undefined_eq_spec isCompatibleFixed toValuePropFixed prop ext .undef (Or.inl rfl)
-  | nonObject => exact gopd_undefined_eq_spec isCompatibleFixed toValuePropFixed prop ext .nonObject (Or.inr rfl)
+  | undef => exact gopd_undefined_eq_spec isCompatible toValueProp prop ext .undef (Or.inl rfl)
+  | nonObject => exact gopd_undefined_eq_spec isCompatible toValueProp prop ext .nonObject (Or.inr rfl)
   | obj d =>
     have hd := ht d rfl
     have hwf : descWellFormed d = true := by
@@ -500,19 +500,19 @@ theorem gopd_eq_spec (prop : TProp) (ext : Bool) (trap : TrapDesc)
     rw [← e1] at e2
     simp only [mechGopd, hwf, Bool.not_true, Bool.false_eq_true, if_false, specGopd, TrapDesc.toSpec, ← e1]
     rw [gopdCheckWith_obj]
-    rw [isCompatibleFixed_eq_spec ext d.complete (propToValueProp prop) (complete_valid d hd)
+    rw [isCompatible_eq_spec ext d.complete (propToValueProp prop) (complete_valid d hd)
       (fun p hp' => propToValueProp_wf hp hp')]
     simp only [TProp.toCur]
     have hc : (d.complete.toPD.configurable == some false) = (d.complete.configurable == .fals) := flag_toOpt_false _
     have hw : (d.complete.toPD.writable == some false) = (d.complete.writable == .fals) := flag_toOpt_false _
     rw [hc, hw]
-    exact gopd_core d.complete (gopdTail toValuePropFixed d) (propToValueProp prop) e2
+    exact gopd_core d.complete (gopdTail toValueProp d) (propToValueProp prop) e2
       (specIsCompatible ext d.complete.toPD ((propToValueProp prop).map VProp.toCur)) (fun p hp' => propToValueProp_wf hp hp')
 
 /-- §10.5.5, completeness for the honest answer (any existing property, any extensibility): accepted, and the
 reported property is the target's (corollary-sized; used by `layer_getOwn`). -/
 theorem gopd_honest_accepted (c : Cur) (ext : Bool) :
-    ∃ r, gopdCheckWith isCompatibleFixed toValuePropFixed c.toTProp ext (.obj c.toDesc) = .ok r ∧ r.toCur = some c :=
+    ∃ r, gopdCheckWith isCompatible toValueProp c.toTProp ext (.obj c.toDesc) = .ok r ∧ r.toCur = some c :=
   gopd_honest c ext
 
 /-- §10.5.11 [[OwnPropertyKeys]]: the mechanism equals the spec for every extensibility, every duplicate-free list of
@@ -631,7 +631,7 @@ theorem ownKeys_rejects_invalid (ext : Bool) (tk : List (Key × Bool)) (pre post
 /-- non-vacuity of `Lawful` and of the forwarding theorems: an object with two frozen data properties, mutable
 prototype and extensibility is lawful, hence three forwarding layers over it are transparent for every history -/
 example (ops : List Op) (s : FState) :
-    (stack isCompatibleFixed toValuePropFixed (fun _ _ s => s) (frozenOps [(.str 1, .num 7), (.sym 1, .undef)]) 3).runAll ops s =
+    (stack isCompatible toValueProp (fun _ _ s => s) (frozenOps [(.str 1, .num 7), (.sym 1, .undef)]) 3).runAll ops s =
       (frozenOps [(.str 1, .num 7), (.sym 1, .undef)]).runAll ops s :=
   forwarding_transparent_histories (frozen_lawful _) 3 ops s
 
